@@ -227,6 +227,15 @@ def run_case(rng, tier, case):
         spec['assets'].append({'type': 'StructuredAsset', 'name': 'swin', 'nodes': [ext], 'assets': inner, 'start': ws, 'end': we})
         case.feature('structured_with_window')
     plus, what, inert_name = inert_element(rng, spec)
+    if spec['grid'].get('tz') and rng.random() < 0.4:
+        # the dates of an asset (window, take periods) given zone-aware: in UTC or quoted in another zone than the grid's (the same instants)
+        form = gen.pick(rng, ['aware_utc', 'aware_other'])
+        names_ = {a['name'] for a in spec['assets'] if (a.get('min_take') or a.get('max_take')) and not a.get('freq')}
+        for sp_ in (spec, plus):
+            for a in sp_['assets']:
+                if a['name'] in names_:
+                    a['_date_form'] = form
+        case.feature('take_dates_' + form)
     split = gen.pick(rng, ['d', '12h', '6h']) if (rng.random() < 0.3 and not spec['grid']['freq'].endswith('d')) else None
     case.feature('inert:' + what.split('_')[0], 'place:' + what, 'split' if split else 'monolithic')
     case.key = env.spec_key([spec, plus, split]); case.sample = {'P': gen.abbreviate(spec), 'inert_element': what, 'split': split}; case.spec = {'P': spec, 'P_plus': plus, 'split': split}
@@ -274,6 +283,42 @@ def run_case(rng, tier, case):
             else:
                 d = problem_diff(Snap(r1.op), Snap(rc.op), rtol=0., compare_mapping=True)
                 case.check('window.overhang_beyond_horizon_is_irrelevant', d is None, changed=changed, diff=d)
+    # (a'') the horizon itself: the same portfolio - every asset explicitly confined to the original horizon - on a horizon that begins earlier gives
+    # the same problem (nothing may be anchored at the horizon start: blocks, coarse steps, periods, proration); discounting counts from the grid
+    # start, so both sides are compared without discounting
+    if not split and rng.random() < 0.4 and not any(a['type'] in ('OrderBook', 'LinkedAsset') for a in spec['assets']):
+        from ..canon import problem_diff
+        g0 = spec['grid']; pts0 = gen.grid_points(g0)
+        kx = int(rng.integers(1, 7))
+        stepd = (pts0[1] - pts0[0]) if len(pts0) > 1 else pd.Timedelta(hours=1)
+        if g0['freq'].endswith('d'):
+            stepd = pd.Timedelta(days=int(pd.tseries.frequencies.to_offset(g0['freq']).n))
+        new_start = str(pd.Timestamp(g0['start']) - kx * stepd)
+        g1 = dict(g0, start=new_start)
+        try:
+            ok_grid = local_ok(new_start, g0.get('tz')) and len(gen.grid_points(g1)) == len(pts0) + kx and gen.grid_points(g1)[kx] == pts0[0]
+        except Exception:
+            ok_grid = False
+        if ok_grid:
+            def confined(sp_, grid):
+                q = copy.deepcopy(sp_); q['grid'] = grid
+                def fix(a):
+                    if 'wacc' in a: a['wacc'] = 0.
+                    if a['type'] != 'OrderBook':
+                        st_ = a.get('start')
+                        a['start'] = g0['start'] if (st_ is None or ck.ts(st_) < ck.points[0]) else st_
+                    if 'base' in a: fix(a['base'])
+                    for x in a.get('assets', []): fix(x)
+                for a in q['assets']: fix(a)
+                return q
+            base_c = confined(spec, g0); ext_c = confined(spec, g1)
+            ext_c['prices'] = {k: [float(z) for z in rng.normal(20, 5, kx)] + list(v) for k, v in spec['prices'].items()}
+            rb = flow.run_portfolio(base_c, do_optimize=False); re_ = flow.run_portfolio(ext_c, do_optimize=False)
+            if rb.ok and not re_.ok:
+                case.check('horizon.earlier_start_is_irrelevant', False, earlier_by_steps=kx, error=flow.describe_error(re_))
+            elif rb.ok and re_.ok:
+                d = problem_diff(Snap(rb.op), Snap(re_.op), rtol=0., compare_mapping=False)
+                case.check('horizon.earlier_start_is_irrelevant', d is None, earlier_by_steps=kx, diff=d)
     # (b) problem of P+ restricted to P's variables == problem of P
     s1 = flow.top_setups(r1.rec); s2 = flow.top_setups(r2.rec)
     if len(s1) != len(s2):
